@@ -2,6 +2,8 @@ package main
 
 import (
 	"go/ast"
+	"os"
+	"path/filepath"
 	"strings"
 )
 
@@ -28,7 +30,30 @@ func c08TopLevel(f *File, b *ast.BlockStmt, call string) Tri {
 	if f.Contains(b, call) {
 		return Unknown
 	}
+	// "no" needs a closed world: the notification is called nowhere in the package (else it may have moved into a helper)
+	if c08CalledInPackage(filepath.Dir(f.Path), call[:strings.Index(call, "(")+1]) {
+		return Unknown
+	}
 	return No
+}
+
+// is `prefix` (e.g. "s.notifyBucketsDelete(") written anywhere in the non-test files of dir?
+func c08CalledInPackage(dir, prefix string) bool {
+	ents, err := os.ReadDir(filepath.Join(repoRoot, dir))
+	if err != nil {
+		return true
+	}
+	for _, e := range ents {
+		nm := e.Name()
+		if e.IsDir() || !strings.HasSuffix(nm, ".go") || strings.HasSuffix(nm, "_test.go") {
+			continue
+		}
+		src, err := os.ReadFile(filepath.Join(repoRoot, dir, nm))
+		if err != nil || strings.Contains(string(src), prefix) {
+			return true
+		}
+	}
+	return false
 }
 
 func c08Track(fs *Facts) {
@@ -36,7 +61,7 @@ func c08Track(fs *Facts) {
 	if f, err := Load(swampGo); err != nil {
 		fs.Err("%v", err)
 	} else {
-		if fd := f.Func("swamp", "SaveFunction"); fd != nil {
+		if f, fd := c07Inlined(f, "swamp", "SaveFunction", c07SaveVocabulary...); fd != nil {
 			c07Canon(fd, []string{"s", "t", "guardID", "existedTreasureObj", "wi", "inMem", "wi", "inMem"})
 			for _, st := range fd.Body.List {
 				ifs, ok := st.(*ast.IfStmt)
@@ -46,19 +71,79 @@ func c08Track(fs *Facts) {
 				switch {
 				case f.Str(ifs.Cond) == "existedTreasureObj == nil":
 					fs.Tri("bucketNotifyInsert", c08TopLevel(f, ifs.Body, "s.notifyBucketsInsert(t)"), c08At(swampGo, f, ifs))
+					// the order of the two statements inside the branch: beaconKey.Add, then the notification
+					add, told := -1, -1
+					for n, st := range ifs.Body.List {
+						switch f.Str(st) {
+						case "s.beaconKey.Add(t)":
+							add = n
+						case "s.notifyBucketsInsert(t)":
+							told = n
+						}
+					}
+					if add >= 0 && told >= 0 {
+						fs.Tri("bucketNotifyAfterAdd", TriOf(told > add), c08At(swampGo, f, ifs))
+					}
 				case strings.HasPrefix(f.Str(ifs.Cond), "t.IsContentChanged() || t.IsContentTypeChanged() || t.IsExpirationTimeChanged()"):
 					fs.Tri("bucketNotifyUpdate", c08TopLevel(f, ifs.Body, "s.notifyBucketsUpdate(t)"), c08At(swampGo, f, ifs))
 				}
 			}
 		}
-		if fd := f.Func("swamp", "deleteHandler"); fd != nil {
-			c07Canon(fd, []string{"s", "key", "shadowDelete", "deletedTreasure", "treasureObj", "guardID", "clonedTreasure"})
-			t := c08TopLevel(f, fd.Body, "s.notifyBucketsDelete(key)")
-			if t == Yes && !c07InOrder(f.Str(fd.Body), "s.beaconKey.Delete(key)", "s.notifyBucketsDelete(key)") {
-				t = Unknown
+		// every function that takes a record out of beaconKey tells the buckets afterwards, at the same block level
+		// (deleteHandler itself, or the function it delegates to)
+		verdict, at := Unknown, ""
+		for _, d := range f.AST.Decls {
+			fd, ok := d.(*ast.FuncDecl)
+			if !ok || fd.Body == nil || !f.Contains(fd.Body, "s.beaconKey.Delete(") {
+				continue
 			}
-			fs.Tri("bucketNotifyDelete", t, c08At(swampGo, f, fd))
+			del, told, keyArg := -1, -1, ""
+			for n, st := range fd.Body.List {
+				src := f.Str(st)
+				if strings.HasPrefix(src, "s.beaconKey.Delete(") && strings.HasSuffix(src, ")") && del < 0 {
+					del, keyArg = n, src[len("s.beaconKey.Delete("):len(src)-1]
+				}
+				if del >= 0 && src == "s.notifyBucketsDelete("+keyArg+")" {
+					told = n
+				}
+			}
+			one := Unknown
+			switch {
+			case del >= 0 && told > del:
+				one = Yes
+			case del >= 0 && !c08CalledInPackage(filepath.Dir(swampGo), "s.notifyBucketsDelete("):
+				one = No // (called nowhere in the package; anything else that is not the known shape is "unknown")
+			}
+			if at == "" || one != Yes {
+				at = c08At(swampGo, f, fd)
+			}
+			if verdict == Unknown && at != "" && one == Yes && told >= 0 {
+				verdict = Yes
+			}
+			if one != Yes {
+				verdict = one
+				break
+			}
 		}
+		// deleteHandler must be (or reach) such a function
+		if dh := f.Func("swamp", "deleteHandler"); dh == nil || !(f.Contains(dh.Body, "s.beaconKey.Delete(") || f.Contains(dh.Body, "s.deleteHandlerIf(key, shadowDelete, nil)")) {
+			verdict = Unknown
+		}
+		// …and swamp.go is the only file of the package that takes records out of beaconKey
+		if ents, err := os.ReadDir(filepath.Join(repoRoot, "app/core/hydra/swamp")); err != nil {
+			verdict = Unknown
+		} else {
+			for _, e := range ents {
+				nm := e.Name()
+				if e.IsDir() || !strings.HasSuffix(nm, ".go") || strings.HasSuffix(nm, "_test.go") || nm == "swamp.go" {
+					continue
+				}
+				if src, err := os.ReadFile(filepath.Join(repoRoot, "app/core/hydra/swamp", nm)); err != nil || strings.Contains(string(src), "beaconKey.Delete(") {
+					verdict = Unknown
+				}
+			}
+		}
+		fs.Tri("bucketNotifyDelete", verdict, at)
 	}
 	std := true
 	fb, err := Load(c08Bucket)
@@ -76,7 +161,8 @@ func c08Track(fs *Facts) {
 		switch {
 		case buffers && loop && replays:
 			fs.Tri("bucketPendingReplayed", Yes, c08At(c08Bucket, fb, fd))
-		case buffers && !strings.Contains(drain, "insertOrUpdateLocked") && !strings.Contains(drain, "deleteLocked"):
+		case buffers && !strings.Contains(drain, "range ops") && !strings.Contains(drain, "range b.pending") && !strings.Contains(drain, "insertOrUpdateLocked") && !strings.Contains(drain, "deleteLocked"):
+			// the buffer is emptied without anything walking over it
 			fs.Tri("bucketPendingReplayed", No, c08At(c08Bucket, fb, fd))
 		}
 	}
@@ -125,5 +211,7 @@ func c08Track(fs *Facts) {
 			where = c08At(c08SwampBucket, fsb, fd)
 		}
 	}
-	fs.Tri("bucketLifecycleStandard", TriOf(std), where)
+	if std { // (a shape that is not found is "unknown", never "no")
+		fs.Tri("bucketLifecycleStandard", Yes, where)
+	}
 }
